@@ -1148,7 +1148,7 @@ def _str_to_owned(eng, st, args, ci):
 
 # ---------------------------------------------------------------- generic lazy iterator adaptors (map / filter / filter_map) and consumers
 
-_ITER_TYS = r'(std::slice::Iter|core::slice::Iter|std::vec::IntoIter|Map|Filter|FilterMap|std::iter::Map|std::iter::Filter|std::iter::FilterMap|std::iter::Take|Take)'
+_ITER_TYS = r'(std::slice::Iter|core::slice::Iter|std::vec::IntoIter|Map|Filter|FilterMap|std::iter::Map|std::iter::Filter|std::iter::FilterMap|std::iter::Take|Take|TakeWhile|std::iter::TakeWhile|Rev|std::iter::Rev|Chars|std::str::Chars|Bytes|std::str::Bytes)'
 
 
 @intrinsic(r'^<' + _ITER_TYS + r'<.*> as (std::iter::)?Iterator>::(map|filter|filter_map)::<', 'Iterator::{map,filter,filter_map} (lazy adaptors; closure bodies = real MIR)', prio=1)
@@ -1221,7 +1221,80 @@ def drain(eng, st, it):
                 live = nxt
             out.extend(live)
         return out
+    if it.name == 'TakeWhile':
+        inner, f = it.items
+        out = []
+        for (s, items) in drain(eng, st, inner):
+            live = [(s, [], False)]
+            for item in items:
+                nxt = []
+                for (s1, acc, done) in live:
+                    if done:
+                        nxt.append((s1, acc, True))
+                        continue
+                    arg = eng.ref_to(s1, item, False, 'tw')
+                    for (s2, kind, val) in eng.call_value(s1, f, [arg], None):
+                        if kind != 'ret':
+                            raise Unsupported('take_while predicate did not return: %s %r' % (kind, val))
+                        t_ok = eng.feasible(s2, val)
+                        f_ok = eng.feasible(s2, z3.Not(val))
+                        if t_ok and f_ok:
+                            s3 = s2.fork()
+                            s3.assume(z3.Not(val))
+                            nxt.append((s3, list(acc), True))
+                            s2.assume(val)
+                            nxt.append((s2, acc + [item], False))
+                        elif t_ok:
+                            nxt.append((s2, acc + [item], False))
+                        elif f_ok:
+                            nxt.append((s2, acc, True))
+                live = nxt
+            out.extend((s1, acc) for (s1, acc, _) in live)
+        return out
     raise Unsupported('drain of iterator %s' % it.name)
+
+
+@intrinsic(r'^(core|std)::str::<impl str>::(chars|bytes)$', 'str::chars / str::bytes over a string held as a character sequence (bytes: ASCII contents only)', prio=2)
+def _str_chars(eng, st, args, ci):
+    v = _deref_arg(eng, st, args[0])
+    if isinstance(v, StrVal) and v.s is not None:
+        v = Seq([bv_const(ord(c), 'char') for c in v.s])
+    if not isinstance(v, Seq):
+        raise Unsupported('chars of %r' % (v,))
+    items = list(v.items)
+    if ci.func.endswith('bytes'):
+        for c in items:
+            if eng.feasible(st, z3.UGE(c.e, 0x80)):
+                raise Unsupported('str::bytes over a possibly non-ASCII character')
+        items = [BV(z3.Extract(7, 0, c.e), 'u8') for c in items]
+    cell = eng.ref_to(st, Seq(items), False, 'chars')
+    return Tup([cell, bv_const(0, 'usize')], 'OwnedIter')
+
+
+@intrinsic(r'^<(std::str::)?(Chars|Bytes)<.*> as (std::iter::)?Iterator>::rev$|^<' + _ITER_TYS + r'<.*> as (std::iter::)?Iterator>::rev$', 'Iterator::rev over a finite drained iterator', prio=2)
+def _iter_rev(eng, st, args, ci):
+    res = []
+    for (s, items) in drain(eng, st, args[0]):
+        cell = eng.ref_to(s, Seq(list(reversed(items))), False, 'rev')
+        res.append((s, 'ret', Tup([cell, bv_const(0, 'usize')], 'OwnedIter')))
+    return res
+
+
+@intrinsic(r'^<' + _ITER_TYS + r'<.*> as (std::iter::)?Iterator>::take$', 'Iterator::take with a concrete count', prio=2)
+def _iter_take(eng, st, args, ci):
+    n = args[1].concrete()
+    if n is None:
+        raise Unsupported('take with a symbolic count')
+    res = []
+    for (s, items) in drain(eng, st, args[0]):
+        cell = eng.ref_to(s, Seq(list(items[:n])), False, 'take')
+        res.append((s, 'ret', Tup([cell, bv_const(0, 'usize')], 'OwnedIter')))
+    return res
+
+
+@intrinsic(r'^<' + _ITER_TYS + r'<.*> as (std::iter::)?Iterator>::take_while::<', 'Iterator::take_while (lazy adaptor; predicate = real closure MIR)', prio=2)
+def _iter_take_while(eng, st, args, ci):
+    return Tup([args[0], args[1]], 'TakeWhile')
 
 
 @intrinsic(r'^<' + _ITER_TYS + r'<.*> as (std::iter::)?Iterator>::collect::<(std::vec::)?Vec<', 'Iterator::collect::<Vec<_>>', prio=1)
